@@ -504,6 +504,9 @@ def rewrite(toks, frm, to, counts, mode="once"):
         else:
             out.append(toks[i])
             i += 1
+    if mode == "opt" and hits <= 1:
+        counts["rewrite"] = counts.get("rewrite", 0) + hits
+        return out
     if hits == 0 or (mode == "once" and hits != 1):
         raise AnchorError("rewrite pattern `%s` matched %d times (expected %s)" % (frm, hits, "1" if mode == "once" else ">=1"))
     counts["rewrite"] = counts.get("rewrite", 0) + hits
